@@ -48,7 +48,7 @@ func c03Table() []GuardReq {
 	r = req("v1-foundation:sig-parent", VT, "%T1%.Signatures[*].ParentID", opEQ, "%T1%.SiacoinInputs[*].ParentID", "the whole-transaction signature must belong to that input", append(fctx, "phi(…WholeTransaction) is false", "…UnlockHash(…) …")...)
 	r.Weak = true
 	add(r)
-	add(req("v1-foundation:decodes", VT, "call (*types.Decoder).Err(…)", opNE, "nil", "a malformed update is rejected", fctx...))
+	add(req("v1-foundation:decodes", VT, "call (types.Decoder).Err(…)", opNE, "nil", "a malformed update is rejected", fctx...))
 	// ---- v2 inputs ----
 	for _, k := range [][2]string{{"SiacoinInputs", "SiacoinOutput"}, {"SiafundInputs", "SiafundOutput"}} {
 		in := "%T2%." + k[0] + "[*]"
@@ -177,13 +177,13 @@ func c03FoundationWriters(c *Ctx, ge *GuardEngine) {
 		valueRe    map[string]string // function -> required provenance of the stored value
 	}
 	rules := []fieldRule{
-		{"consensus.State", "FoundationSubsidyAddress", map[string]string{"consensus.ApplyBlock": "block application", "(*consensus.State).DecodeFrom": "decoding", "(*consensus.Network).GenesisState": "genesis"},
+		{"consensus.State", "FoundationSubsidyAddress", map[string]string{"consensus.ApplyBlock": "block application", "(consensus.State).DecodeFrom": "decoding", "(consensus.Network).GenesisState": "genesis"},
 			map[string]string{"consensus.ApplyBlock": "call consensus.NewMidState({consensus.State}).foundationSubsidy"}},
-		{"consensus.State", "FoundationManagementAddress", map[string]string{"consensus.ApplyBlock": "block application", "(*consensus.State).DecodeFrom": "decoding", "(*consensus.Network).GenesisState": "genesis"},
+		{"consensus.State", "FoundationManagementAddress", map[string]string{"consensus.ApplyBlock": "block application", "(consensus.State).DecodeFrom": "decoding", "(consensus.Network).GenesisState": "genesis"},
 			map[string]string{"consensus.ApplyBlock": "call consensus.NewMidState({consensus.State}).foundationManagement"}},
-		{"consensus.MidState", "foundationSubsidy", map[string]string{"consensus.NewMidState": "initialised from the base state", "(*consensus.MidState).ApplyTransaction": "v1 update path", "(*consensus.MidState).ApplyV2Transaction": "v2 update path"},
+		{"consensus.MidState", "foundationSubsidy", map[string]string{"consensus.NewMidState": "initialised from the base state", "(consensus.MidState).ApplyTransaction": "v1 update path", "(consensus.MidState).ApplyV2Transaction": "v2 update path"},
 			map[string]string{"consensus.NewMidState": "{consensus.State}.FoundationSubsidyAddress"}},
-		{"consensus.MidState", "foundationManagement", map[string]string{"consensus.NewMidState": "initialised from the base state", "(*consensus.MidState).ApplyTransaction": "v1 update path", "(*consensus.MidState).ApplyV2Transaction": "v2 update path"},
+		{"consensus.MidState", "foundationManagement", map[string]string{"consensus.NewMidState": "initialised from the base state", "(consensus.MidState).ApplyTransaction": "v1 update path", "(consensus.MidState).ApplyV2Transaction": "v2 update path"},
 			map[string]string{"consensus.NewMidState": "{consensus.State}.FoundationManagementAddress"}},
 	}
 	for _, r := range rules {
